@@ -10,10 +10,10 @@ def jobs(tier):
     J = []
     for f, name in MSG.items():
         t = tier == 'thorough'
-        for n in ((1, 9) if f in (0, 1, 2) else (1, 2, 3, 5, 9) if f in (3, 4, 5) else ((1, 2, 3, 4) if t else (1, 2))):   # string payloads go through unicode_traits::validate: ~200 s per job
+        for n in ((1, 9) if f in (0, 1, 2) else (1, 2, 3, 5, 9) if f in (3, 4, 5) else ((1, 2, 3, 4) if t else (1,))):   # string payloads go through unicode_traits::validate: ~200 s per job
             J.append(dict(id='msgpack_%s_n%d' % (name, n), harness='h_msgpack_item', props=['C07'], unwind=12, defs=dict(FAM=f, N=n), timeout=1500 if f == 6 else 300, mem_gb=4, desc='msgpack read_item, family %s: value per the MessagePack spec, truncation -> error, 0xc1 rejected' % name, bound='type bytes of the family (fixints: 0x00,0x01,0x40,0x7f / 0xe0,0xf0,0xff; otherwise all), every following byte, input length %d' % n))
     for mk in 'ZTFUiIlLdDCSH':
         t = tier == 'thorough'
-        for n in ((1, 2) if mk in 'ZTF' else (1, 2, 3, 5, 9) if mk in 'UiIlLdD' else ((1, 2, 3, 5, 9) if t else (1, 2)) if mk == 'C' else ((2, 3, 4, 6, 7, 10) if (t or mk == 'H') else (2, 3, 4, 6))):
+        for n in ((1, 2) if mk in 'ZTF' else (1, 2, 3, 5, 9) if mk in 'UiIlLdD' else ((1, 2, 3, 5, 9) if t else (1,)) if mk == 'C' else ((2, 3, 4, 6, 7, 10) if (t or mk == 'H') else (2,))):   # payloads that reach unicode_traits::validate cost 200-500 s per job: thorough tier
             J.append(dict(id='ubjson_%s_n%d' % (mk if mk.isupper() else mk + '_', n), harness='h_ubjson_item', props=['C07'], unwind=12, defs=dict(MK="'%s'" % mk, N=n), timeout=900, mem_gb=4, desc="ubjson read_value '%s': value per the UBJSON spec (lengths of every width), truncation / negative length / bad UTF-8 -> error" % mk, bound='every following byte, input length %d' % n))
     return J
